@@ -1056,6 +1056,50 @@ func probe() Probe {
 	}}
 }
 
+// witnesses are the histories of the refutation theorems in coq/Sync/Proofs.v (wv_*), replayed on
+// the real code on every run: the empty cluster, VirtualServer vs-a/uid-a with secret s1 and issuer
+// iss-1, synchronized before and after one edit, then once more without edit.
+func witnesses() []*Case {
+	base := func() VSIn {
+		ep := []ExtEp{{IP: "10.0.0.1"}}
+		return VSIn{Name: "vs-a", UID: "uid-a", Host: "a.example.com", TLS: &TLSIn{Secret: "s1", CM: &CMIn{Issuer: "iss-1"}},
+			XDNS: XDNSIn{ProviderNil: true}, Endpoints: &ep}
+	}
+	mk := func(name string, f1, f2 func(v *VSIn)) *Case {
+		v1, v2 := base(), base()
+		f1(&v1)
+		f1(&v2)
+		f2(&v2)
+		return &Case{Class: "witness-" + name, Steps: []Step{{VS: v1, Kind: "first"}, {VS: v2, Kind: "edit"}, {VS: cloneVS(v2), Kind: "resync"}}}
+	}
+	nop := func(v *VSIn) {}
+	empty := []KV{}
+	ws := []*Case{
+		mk("duration", func(v *VSIn) { v.TLS.CM.Duration = "2160h" }, func(v *VSIn) { v.TLS.CM.Duration = "720h" }),
+		mk("renew-before", func(v *VSIn) { v.TLS.CM.RenewBefore = "360h" }, func(v *VSIn) { v.TLS.CM.RenewBefore = "240h" }),
+		mk("usages", func(v *VSIn) { v.TLS.CM.Usages = "server auth" }, func(v *VSIn) { v.TLS.CM.Usages = "client auth" }),
+		mk("issuer-group", nop, func(v *VSIn) { v.TLS.CM.IssuerGroup = "awspca.cert-manager.io" }),
+		mk("issue-temp-cert", nop, func(v *VSIn) { v.TLS.CM.Temp = true }),
+		mk("cert-manager-removed", nop, func(v *VSIn) { v.TLS.CM = nil }),
+		mk("tls-removed", nop, func(v *VSIn) { v.TLS = nil }),
+		mk("externaldns-disabled", func(v *VSIn) { v.TLS = nil; v.XDNS.Enable = true }, func(v *VSIn) { v.XDNS.Enable = false }),
+		mk("externaldns-empty-labels", func(v *VSIn) { v.TLS = nil; v.XDNS.Enable = true; v.XDNS.Labels = &empty }, nop),
+	}
+	// a Certificate the VirtualServer controls that equals the first-time object except for a field the
+	// controller never sets (isCA), and one whose spec.secretName was edited away from its name
+	drift := mk("drifted-isca", nop, nop)
+	drift.InitCerts = []CertObj{{Name: "s1", Owner: "uid-a", DNS: []string{"a.example.com"}, Secret: "s1", IName: "iss-1", IKind: "Issuer",
+		Usages: []string{"digital signature", "key encipherment"}, IsCA: true}}
+	edited := mk("hand-edited-secretname", nop, nop)
+	edited.InitCerts = []CertObj{{Name: "s1", Owner: "uid-a", DNS: []string{"a.example.com"}, Secret: "s9", IName: "iss-1", IKind: "Issuer",
+		Usages: []string{"digital signature", "key encipherment"}}}
+	ws = append(ws, drift, edited)
+	for i, c := range ws {
+		c.ID = i
+	}
+	return ws
+}
+
 func main() {
 	a := vh.ParseArgs()
 	w, err := vh.NewWriter(a.Out)
@@ -1078,9 +1122,14 @@ func main() {
 		}
 		return
 	}
+	ws := witnesses()
+	for _, c := range ws {
+		runCase(c)
+		w.Emit(c)
+	}
 	root := vh.NewRng(a.Seed)
 	for i := 0; i < a.N; i++ {
-		c := genCase(root.Fork(uint64(i)), i)
+		c := genCase(root.Fork(uint64(i)), len(ws)+i)
 		runCase(c)
 		w.Emit(c)
 	}
